@@ -95,7 +95,7 @@ def run(tier, seed):
         lines = [l for l in open(trace).read().split("\n") if l.strip()]
         runs = core.split_runs(lines)
         tested = []
-        if not rejects:
+        if not rejects and not v.violations:
             st = [lines[s:e] for (s, e) in runs if json.loads(lines[s]).get("run") == "selftest"]
             tested = selftest.run("Trace_Activation", st[0], decoded, wd, corruptions())
         fp = [d for d in dec if d.get("kind") == "FastPath"]
